@@ -585,11 +585,12 @@ func ruleC05R2(r *Run) {
 			afterLoop := false
 			for _, f := range facts {
 				// the exit edge of the element loop: index >= len (range loop or index loop, either orientation)
-				if (f.Op == ">=" && (f.Y == la || f.Y == lb)) || (f.Op == "<=" && (f.X == la || f.X == lb) && f.Y != la && f.Y != lb) {
+				isLen := func(s string) bool { return strings.HasPrefix(s, "builtin:len(") }
+				if (f.Op == ">=" && (f.Y == la || f.Y == lb) && !isLen(f.X)) || (f.Op == "<=" && (f.X == la || f.X == lb) && !isLen(f.Y)) {
 					afterLoop = true
 				}
 			}
-			r.Check("compareData#return0", ret.Pos(), sameLen && afterLoop, "0 only for equally long slices after all elements compared equal", "compareData returns 0 under "+factsStr(facts))
+			r.Check("compareData#return0", ret.Pos(), sameLen && afterLoop && !elemLess && !elemGreater, "0 only for equally long slices after all elements compared equal", "compareData returns 0 under "+factsStr(facts))
 		default:
 			r.Fail("compareData#return", ret.Pos(), fmt.Sprintf("compareData returns %d", c))
 		}
